@@ -195,6 +195,42 @@ func decoy(n int) func(n int, f Step) int {
 	}
 }
 
+// Slice identity (classes marked sliceobs): Made holds the []int values in the order they were handed out, Empty makes
+// them empty (not nil); sliceFlag tells what came back: n nil, e empty and not nil, s the same backing array, d another one.
+var Made [][]int
+var Empty bool
+
+func mkS(n int) []int {
+	var s []int
+	if Empty {
+		s = []int{}
+	} else {
+		s = mk9(n)
+	}
+	Made = append(Made, s)
+	return s
+}
+
+func obS(v []int) int {
+	if len(v) == 0 {
+		return 0
+	}
+	return v[0]
+}
+
+func sliceFlag(r []int, k int) string {
+	if r == nil {
+		return "n"
+	}
+	if len(r) == 0 {
+		return "e"
+	}
+	if k < len(Made) && len(Made[k]) > 0 && &r[0] == &Made[k][0] {
+		return "s"
+	}
+	return "d"
+}
+
 // UnsafeP is unsafe.Pointer itself (an alias, so that the files of the package need not import unsafe).
 type UnsafeP = unsafe.Pointer
 
